@@ -231,6 +231,10 @@ fn fold_atom(
     prefix: String,
     name: String,
 ) -> FoldResult<EnumTerm> {
+    // 除「占位符」外，原子词项的名称不能为空（与「枚举Narsese」解析器的要求一致）
+    if name.is_empty() && prefix != folder.atom.prefix_placeholder {
+        return Err(FoldError!("词项名不能为空（词缀「{prefix}」）"));
+    }
     Ok(first! {
         (prefix.eq) => (_);
         // 词语 | ✅这里不用再害怕「空前缀」问题
